@@ -1,4 +1,5 @@
-import CkbVerif.Lemmas.Epoch
+import CkbVerif.Lemmas.EpochNext
+import CkbVerif.Lemmas.EpochCompact
 
 /-!
 # C07 — epoch length, difficulty and per-block issuance arithmetic stay within spec
@@ -45,6 +46,53 @@ example : ∃ o, nextEpochExt { T := 14400, initial := 191780821917808, halving 
     { number := 0, base := 191780821917, rem := 808, prevHR := 0x1000, start := 0, length := 1000, compact := 0x1a08a8b1 }
     999 0x1a08a8b1 25 14400000 = some o ∧ o.length = 1000 := by
   refine ⟨_, rfl, ?_⟩; decide +kernel
+
+
+/-! ## next epoch length and difficulty equal the RFC formulas -/
+
+theorem durationSecs_pos (ms : Nat) : 0 < durationSecs ms := by unfold durationSecs; omega
+
+/-- The next length is the closed formula `lengthSpec`: `min(MAX, TAU·L)` without uncles, else
+`⌊o_ideal (1+o_i) L_ideal L / (o_i (1+o_ideal) D)⌋` (low 64 bits) clamped to
+`[max(MIN, L/TAU), min(MAX, TAU·L)]`, where `o_i = uncles/L`, `D = max(ms/1000, 1)`. -/
+theorem next_len_eq_formula {P : Params} {e o : EpochExt} {hn hc u ms : Nat}
+    (h : nextEpochExt P e hn hc u ms = some o) (hort : 0 < P.ortD) :
+    o.length = (lengthSpec P e.length u (durationSecs ms)).1 := by
+  obtain ⟨adj, lor, L', bound, den, nd, R, _, h2, h3, _, _, _, _, _, _, _, ho⟩ := nextEpochExt_some h
+  have := nextLength_spec (Rep.new h2) hort (durationSecs_pos ms) h3
+  rw [ho, ← this]
+
+/-- `next_diff_eq_formula`: the compact target of the next epoch encodes
+`max 1 ⌊HR_adj · L_ideal / ((1 + o) · L')⌋`, with the orphan rate `o = p/q` chosen per branch as in
+the RFC (`orphanSpec`): 0 without uncles, `o_ideal` when the length estimate was not bounded (or the
+re-estimate is non-positive), else the re-estimated rate for the bounded length. -/
+theorem next_diff_eq_formula {P : Params} {e o : EpochExt} {hn hc u ms : Nat}
+    (h : nextEpochExt P e hn hc u ms = some o) (hort : 0 < P.ortD) :
+    ∃ nd p q, difficultyToCompact nd = some o.compact ∧
+      (p, q) = orphanSpec P e.length u (durationSecs ms) o.length (lengthSpec P e.length u (durationSecs ms)).2 ∧
+      0 < q ∧ nd = max 1 (o.prevHR * P.T * q / ((p + q) * o.length)) := by
+  obtain ⟨adj, lor, L', bound, den, nd, R, _, h2, h3, h4, h5, _, hL', _, _, h10, ho⟩ := nextEpochExt_some h
+  have hlor := Rep.new h2
+  have hls := nextLength_spec hlor hort (durationSecs_pos ms) h3
+  have hb : bound = (lengthSpec P e.length u (durationSecs ms)).2 := by rw [← hls]
+  have hol : o.length = L' := by rw [ho]
+  have hoh : o.prevHR = adj := by rw [ho]
+  have hden := diffDenominator_spec hlor hort (durationSecs_pos ms) (Nat.pos_of_ne_zero hL') h4
+  have hnd := nextDiff_spec hden (Nat.pos_of_ne_zero hL') h5
+  refine ⟨nd, (orphanSpec P e.length u (durationSecs ms) L' bound).1,
+    (orphanSpec P e.length u (durationSecs ms) L' bound).2, h10, ?_, orphanSpec_pos hort, ?_⟩
+  · rw [hol, ← hb]
+  · rw [hol, hoh]; exact hnd
+
+/-- `next_diff_pos`: the next difficulty is never zero. -/
+theorem next_diff_pos {P : Params} {e o : EpochExt} {hn hc u ms : Nat}
+    (h : nextEpochExt P e hn hc u ms = some o) (hort : 0 < P.ortD) :
+    ∃ nd, 1 ≤ nd ∧ difficultyToCompact nd = some o.compact := by
+  obtain ⟨nd, p, q, h1, _, _, h3⟩ := next_diff_eq_formula h hort
+  exact ⟨nd, by omega, h1⟩
+
+/-- mainnet parameters satisfy the hypothesis -/
+example : 0 < ({ T := 14400, initial := 191780821917808, halving := 8760 } : Params).ortD := by decide
 
 /-! ## hash-rate estimate -/
 
@@ -93,7 +141,7 @@ theorem secondary_issuance_sums_to_epoch_issuance (e : EpochExt) (S : Nat) (hL :
   · unfold secondaryBlockIssuance safeAdd chk64 chk divChk modChk
     have : e.start + S % e.length < U64 := by omega
     simp [hL, this, h3]
-    split <;> simp_all <;> omega
+    split <;> simp_all
   · rw [sum_indicator]
     have := Nat.div_add_mod S e.length
     rw [Nat.mul_comm] at this
@@ -122,5 +170,178 @@ theorem next_epoch_rewards_sum {P : Params} {e o : EpochExt} {hn hc u ms : Nat}
   · unfold primaryReward chk64 chk
     have : o.base * o.length < U64 := by omega
     simp [this, hsum, hR]
+
+/-! ## halving -/
+
+/-- `halving_on_schedule`: one halving interval later the scheduled epoch reward is exactly half
+(floor), for every epoch number. -/
+theorem halving_on_schedule (P : Params) (n : Nat) (hh : P.halving ≠ 0) (hlt : n / P.halving + 1 < 64) :
+    primaryEpochReward P n = some (P.initial / 2 ^ (n / P.halving)) ∧
+    primaryEpochReward P (n + P.halving) = some (P.initial / 2 ^ (n / P.halving) / 2) := by
+  have hd : (n + P.halving) / P.halving = n / P.halving + 1 := Nat.add_div_right n (Nat.pos_of_ne_zero hh)
+  rw [primaryEpochReward_eq n hh (by omega), primaryEpochReward_eq (n + P.halving) hh (by omega), hd,
+    Nat.pow_succ, Nat.div_div_eq_div_mul]
+  exact ⟨rfl, rfl⟩
+
+/-- inside a halving interval the scheduled reward does not change -/
+theorem reward_constant_inside_interval (P : Params) (n : Nat) (hh : P.halving ≠ 0)
+    (hm : (n + 1) % P.halving ≠ 0) : primaryEpochReward P (n + 1) = primaryEpochReward P n := by
+  unfold primaryEpochReward divChk
+  simp only [hh, if_false, succ_div_of_not_dvd hh hm]
+
+/-- `next_epoch_ext` keeps the invariant "the epoch's total primary reward is the scheduled one for
+its number" (the genesis epoch is built with it): halving happens exactly at multiples of the interval. -/
+theorem next_epoch_reward_on_schedule {P : Params} {e o : EpochExt} {hn hc u ms : Nat}
+    (h : nextEpochExt P e hn hc u ms = some o) (hinit : P.initial < U64) (hh : P.halving ≠ 0)
+    (hinv : primaryReward e = primaryEpochReward P e.number) :
+    o.number = e.number + 1 ∧ primaryReward o = primaryEpochReward P o.number := by
+  obtain ⟨R, h1, _, _, h4⟩ := next_epoch_rewards_sum h hinit
+  obtain ⟨_, _, _, _, _, _, _, _, _, _, _, _, _, _, _, _, _, ho⟩ := nextEpochExt_some h
+  have hnum : o.number = e.number + 1 := by rw [ho]
+  refine ⟨hnum, ?_⟩
+  rw [h4, hnum]
+  obtain ⟨_, ⟨hm, hr⟩ | ⟨hm, hr⟩⟩ := primaryRewardOfNext_some h1
+  · have : (e.number + 1) % P.halving ≠ 0 := by
+      unfold isMultipleOf at hm; simp [hh] at hm; exact hm
+    rw [reward_constant_inside_interval P e.number hh this, ← hinv, hr]
+  · exact hr.symm
+
+example : primaryEpochReward { T := 14400, initial := 191780821917808, halving := 8760 } 8760
+    = some (191780821917808 / 2) := by decide +kernel
+
+/-! ## epoch number with fraction: round trip, successor relation, gap-free sequences -/
+
+/-- `new_unchecked` followed by the accessors returns the fields (fields within their bit widths). -/
+theorem epoch_fraction_roundtrip {n i l : Nat} (hn : n < 2 ^ EPOCH_NUMBER_BITS) (hi : i < 2 ^ EPOCH_INDEX_BITS)
+    (hl : l < 2 ^ EPOCH_LENGTH_BITS) :
+    enfNumber (enfPack n i l) = n ∧ enfIndex (enfPack n i l) = i ∧ enfLength (enfPack n i l) = l :=
+  enf_roundtrip hn hi hl
+
+/-- every 56-bit full value is the packing of its own fields (the encoding is injective on fields) -/
+theorem epoch_fraction_pack_unpack {v : Nat}
+    (hv : v < 2 ^ (EPOCH_NUMBER_BITS + EPOCH_INDEX_BITS + EPOCH_LENGTH_BITS)) :
+    enfPack (enfNumber v) (enfIndex v) (enfLength v) = v :=
+  enf_pack_unpack hv
+
+/-- `EpochVerifier` accepts `header` after a non-genesis `parent` iff the header's epoch field is
+well formed and is the *next position*: same epoch, index + 1, same length — or, when the parent is
+the last block of its epoch, the next epoch number at index 0. -/
+theorem epoch_successor_iff_next_position (parent header : Nat) (hg : enfIsGenesis parent = false) :
+    epochVerify parent header = .ok ↔
+      (0 < enfLength header ∧ enfIndex header < enfLength header) ∧
+      (if enfIndex parent + 1 = enfLength parent
+        then enfNumber header = enfNumber parent + 1 ∧ enfIndex header = 0
+        else enfNumber header = enfNumber parent ∧ enfIndex header = enfIndex parent + 1 ∧
+             enfLength header = enfLength parent) := by
+  rw [epochVerify_ok_iff, hg, ← enfIsSuccessorOf_iff]
+  unfold enfIsWellFormed
+  simp
+
+/-- `epochs_gap_free`: along any chain of headers accepted by `EpochVerifier` (no genesis-marker
+parents), starting at a well-formed position `(n, i, l)`, the `k`-th descendant is at `(n, i + k, l)`
+for as long as `i + k < l`, and the block after the epoch's last one is at `(n + 1, 0, _)`:
+no position is skipped or repeated. -/
+theorem epochs_gap_free (f : Nat → Nat)
+    (hstep : ∀ k, epochVerify (f k) (f (k + 1)) = .ok) (hng : ∀ k, enfIsGenesis (f k) = false) :
+    (∀ k, enfIndex (f 0) + k < enfLength (f 0) →
+      enfNumber (f k) = enfNumber (f 0) ∧ enfIndex (f k) = enfIndex (f 0) + k ∧
+        enfLength (f k) = enfLength (f 0)) ∧
+    (∀ k, enfIndex (f 0) + k = enfLength (f 0) →
+      enfNumber (f k) = enfNumber (f 0) + 1 ∧ enfIndex (f k) = 0 ∨ k = 0) := by
+  have within : ∀ k, enfIndex (f 0) + k < enfLength (f 0) →
+      enfNumber (f k) = enfNumber (f 0) ∧ enfIndex (f k) = enfIndex (f 0) + k ∧
+        enfLength (f k) = enfLength (f 0) := by
+    intro k
+    induction k with
+    | zero => intro _; simp
+    | succ k ih =>
+      intro hk
+      obtain ⟨h1, h2, h3⟩ := ih (by omega)
+      have hs := (epoch_successor_iff_next_position (f k) (f (k + 1)) (hng k)).mp (hstep k)
+      have hne : ¬ (enfIndex (f k) + 1 = enfLength (f k)) := by omega
+      simp only [hne, if_false] at hs
+      omega
+  refine ⟨within, fun k hk => ?_⟩
+  cases k with
+  | zero => right; rfl
+  | succ k =>
+    left
+    obtain ⟨h1, h2, h3⟩ := within k (by omega)
+    have hs := (epoch_successor_iff_next_position (f k) (f (k + 1)) (hng k)).mp (hstep k)
+    have he : enfIndex (f k) + 1 = enfLength (f k) := by omega
+    simp only [he, if_true] at hs
+    omega
+
+/-- the hypotheses are satisfiable: positions 5(2/4), 5(3/4), 6(0/7) -/
+example : epochVerify (enfPack 5 2 4) (enfPack 5 3 4) = .ok ∧ epochVerify (enfPack 5 3 4) (enfPack 6 0 7) = .ok ∧
+    epochVerify (enfPack 5 3 4) (enfPack 5 4 4) = .malformed ∧ epochVerify (enfPack 5 2 4) (enfPack 6 0 7) = .nonContinuous := by
+  decide +kernel
+
+
+/-! ## compact target / difficulty conversions
+
+What is true of the code (and what is not): `target_to_compact` keeps the top three *bytes* of the
+target (17–24 significant bits), so `compact_to_target ∘ target_to_compact` is the truncation
+`truncTarget` (not the identity); it never sets the overflow flag; a compact whose mantissa is not
+normalised (e.g. `0x04000001`) does not re-encode to itself, which is why the round trip is stated from
+the target side. -/
+
+/-- `compact_roundtrip`: decoding the encoding of any 256-bit target gives the target with the bits
+below its top three bytes cleared, without overflow flag; this value is `≤` the target, non-zero for
+a non-zero target, and differs from it by at most a `2^-16` fraction. -/
+theorem compact_roundtrip {t : Nat} (ht : t < U256) :
+    compactToTarget (targetToCompact t) = (truncTarget t, false) ∧
+      truncTarget t ≤ t ∧ (t ≠ 0 → truncTarget t ≠ 0) ∧ (t - truncTarget t) * 2 ^ 16 ≤ t :=
+  ⟨compact_roundtrip_target ht, truncTarget_le t, truncTarget_pos, truncTarget_precision t⟩
+
+/-- the canonical encoding is a fixed point: encoding the re-decoded target gives the same target again -/
+theorem compact_roundtrip_idempotent {t : Nat} (ht : t < U256) :
+    compactToTarget (targetToCompact (truncTarget t)) = (truncTarget (truncTarget t), false) :=
+  compact_roundtrip_target (Nat.lt_of_le_of_lt (truncTarget_le t) ht)
+
+/-- `compact_monotone`: target → compact → target is monotone. -/
+theorem compact_monotone {t1 t2 : Nat} (h : t1 ≤ t2) (ht : t2 < U256) :
+    (compactToTarget (targetToCompact t1)).1 ≤ (compactToTarget (targetToCompact t2)).1 := by
+  rw [(compact_roundtrip ht).1, (compact_roundtrip (Nat.lt_of_le_of_lt h ht)).1]
+  exact truncTarget_mono h
+
+/-- `target_difficulty_antitone`: a larger (non-zero) target is a smaller or equal difficulty. -/
+theorem target_difficulty_antitone {t1 t2 : Nat} (h0 : t1 ≠ 0) (h : t1 ≤ t2) (ht : t2 < U256) :
+    ∃ d1 d2, targetToDifficulty t1 = some d1 ∧ targetToDifficulty t2 = some d2 ∧ d2 ≤ d1 :=
+  ⟨_, _, targetToDifficulty_eq h0, targetToDifficulty_eq (by omega), recip256_antitone h0 h ht⟩
+
+/-- `compact_of_diff_nonzero`: a difficulty `≥ 1` never round-trips through the compact form to 0,
+and never decreases (the target is rounded down). -/
+theorem compact_of_diff_nonzero {d : Nat} (h0 : d ≠ 0) (hd : d < U256) :
+    ∃ c, difficultyToCompact d = some c ∧ 1 ≤ compactToDifficulty c ∧ d ≤ compactToDifficulty c :=
+  difficulty_roundtrip h0 hd
+
+/-- The compact target produced by `next_epoch_ext` never decodes to difficulty zero, and decodes to
+at least the difficulty given by the formula of `next_diff_eq_formula`. -/
+theorem next_compact_difficulty_pos {P : Params} {e o : EpochExt} {hn hc u ms : Nat}
+    (h : nextEpochExt P e hn hc u ms = some o) : 1 ≤ compactToDifficulty o.compact := by
+  obtain ⟨adj, lor, L', bound, den, nd, R, _, _, _, _, h5, _, _, _, _, h10, _⟩ := nextEpochExt_some h
+  have hlt := nextDiff_lt h5
+  have h0 : nd ≠ 0 := by
+    intro h0; subst h0
+    unfold difficultyToCompact difficultyToTarget divChk at h10; simp at h10
+  obtain ⟨c, hc1, hc2, _⟩ := difficulty_roundtrip h0 hlt
+  rw [h10] at hc1; injection hc1 with hc1; rw [hc1]; exact hc2
+
+example : compactToDifficulty 0x1a08a8b1 = 0x1d90959b540e32 ∧ targetToCompact (2 ^ 255) = 0x20800000 ∧
+    compactToTarget 0x04000001 = (0x100, false) ∧ targetToCompact 0x100 = 0x02010000 := by decide +kernel
+
+/-! ## proof of work -/
+
+/-- `pow_accept_iff_le_target`: a header is accepted iff its compact target decodes to a non-zero,
+non-overflowing target and the digest does not exceed it. -/
+theorem pow_accept_iff_le_target (compact digest : Nat) :
+    powVerify compact digest = true ↔
+      (compactToTarget compact).1 ≠ 0 ∧ (compactToTarget compact).2 = false ∧
+        digest ≤ (compactToTarget compact).1 :=
+  pow_accept_iff compact digest
+
+example : powVerify 0x20800000 (2 ^ 255) = true ∧ powVerify 0x20800000 (2 ^ 255 + 1) = false ∧
+    powVerify 0x21000001 0 = false ∧ powVerify 0x01000000 0 = false := by decide +kernel
 
 end CkbVerif.C07
